@@ -35,6 +35,7 @@ from typing import Any
 
 from happysimulator.core.entity import Entity
 from happysimulator.core.event import Event
+from happysimulator.core.sim_future import SimFuture
 
 logger = logging.getLogger(__name__)
 
@@ -207,9 +208,11 @@ class RWLock(Entity):
         enqueue_time = self._clock.now.nanoseconds if self._clock else 0
 
         acquired = [False]
+        wake = SimFuture()
 
         def on_wake():
             acquired[0] = True
+            wake.resolve()
 
         waiter = _Waiter(
             waiter_type=_WaiterType.READER,
@@ -218,8 +221,9 @@ class RWLock(Entity):
         )
         self._waiters.append(waiter)
 
+        # Park until woken by a release (no events are scheduled while waiting)
         while not acquired[0]:
-            yield 0.0
+            yield wake
 
         self._read_acquisitions += 1
 
@@ -244,9 +248,11 @@ class RWLock(Entity):
         enqueue_time = self._clock.now.nanoseconds if self._clock else 0
 
         acquired = [False]
+        wake = SimFuture()
 
         def on_wake():
             acquired[0] = True
+            wake.resolve()
 
         waiter = _Waiter(
             waiter_type=_WaiterType.WRITER,
@@ -255,8 +261,9 @@ class RWLock(Entity):
         )
         self._waiters.append(waiter)
 
+        # Park until woken by a release (no events are scheduled while waiting)
         while not acquired[0]:
-            yield 0.0
+            yield wake
 
         self._write_acquisitions += 1
 
